@@ -5,7 +5,7 @@
    semantics differs from CPython (a defect of the model, reported like a violation). *)
 From Coq Require Import List Arith Bool ZArith.
 Import ListNotations.
-From PySM Require Export Impl.Guards.
+From PySM Require Export Impl.Guards Impl.Replace.
 
 (* outcome codes: 0 transition not fired, 1 fired, 2 TypeError *)
 Record step := { s_env : list (nat * pyval); s_impl : nat; s_reads : list nat; s_ref : nat }.
@@ -87,3 +87,7 @@ Definition verdict_any (c : case + nat) : nat :=
 
 Definition wf (k : case) : case + nat := inl k.
 Definition mal (n : nat) : case + nat := inr n.
+
+(* textual layer: the library's replace_operators on a text (character codes) against the model *)
+Definition text_case (input output : list nat) : case + nat :=
+  mal (if list_eqb Nat.eqb (replace_operators input) output then 1 else 0).
